@@ -128,8 +128,53 @@ def tags_case(prog, ex, case):
     raise Unsupported('case ' + what)
 
 
+def brick_rows():
+    from .. import gen
+    return gen.brick_color_rows()
+
+
+def brick_case(prog, ex, case):
+    """BrickColor::from_name on a symbolic string of `len` bytes: the result is the FIRST row of the make_brick_color! invocation
+    whose name equals the string (the documented collision rule), None when no row has that name."""
+    F = prog.resolve('BrickColor::from_name')
+    if F is None:
+        raise Unsupported('BrickColor::from_name not found in MIR')
+    rows = brick_rows()
+    n = case['len']
+    bs = [sym_int('s%d' % i, 'u8') for i in range(n)]
+    ex.blob_in = bs
+    if n:
+        ex.assume(iomodels.utf8_valid(bs))     # a &str holds UTF-8
+    try:
+        res = ex.force(ex.call_fn(F, [StrV(list(bs), None)]))
+    except PanicPath as p:
+        raise Violation('C17.blob[brick_name_panic]: BrickColor::from_name panics on a %d-byte name: %s' % (n, p.msg))
+    number = {r[0]: r[2] for r in rows}
+    if res.variant == 'Some':
+        v = ex.force(res.f[0])
+        if v.variant not in number:
+            raise Unsupported('from_name returned a variant %r that the macro invocation does not list' % (v.variant,))
+        got = number[v.variant]
+    else:
+        got = -1
+    # spec: first row (declaration order) whose name is the string
+    want = z3.IntVal(-1)
+    for var, name, num, _rgb in reversed(rows):
+        nb = name.encode()
+        if len(nb) != n:
+            continue
+        eq = z3.And([b.t == c for b, c in zip(bs, nb)]) if n else z3.BoolVal(True)
+        want = z3.If(eq, z3.IntVal(num), want)
+    if ex.sat(want != got):
+        ex.assume(want != got)
+        raise Violation('C17.blob[brick_name]: BrickColor::from_name(s) is not the first palette entry named s (%d-byte names; got %s)' % (n, got if got >= 0 else 'None'))
+    return 'ok' if got >= 0 else 'err'
+
+
 def run_case(prog, ex, case):
     what = case['what']
+    if what == 'brick_name':
+        return brick_case(prog, ex, case)
     if what.startswith('tags_'):
         return tags_case(prog, ex, case)
     mats = materials(prog)
@@ -267,6 +312,26 @@ def confirm(prog, ex, case, label):
         return False, None, 'path condition unsatisfiable at report time'
     m = ex.solver.model()
     ev = lambda t: m.eval(t, model_completion=True).as_long()
+    if case['what'] == 'brick_name':
+        name = bytes(ev(x.t) for x in ex.blob_in)
+        spec = dict(name=list(name))
+        rc, out, _ = C.run([gen.tool('replayer'), 'bytes', 'brick-name', json.dumps(spec)], timeout=60)
+        os.makedirs(C.REPLAYS, exist_ok=True)
+        path = os.path.join(C.REPLAYS, 'C17_brickname_%s.json' % hashlib.sha256(json.dumps(spec).encode()).hexdigest()[:10])
+        rows = brick_rows()
+        want = next((r[2] for r in rows if r[1].encode() == name), None)
+        ok = False
+        try:
+            r = json.loads(out.strip().split('\n')[-1]) if 'PANIC' not in out else None
+        except Exception:
+            r = None
+        if 'panic' in label:
+            ok = 'PANIC' in out
+        elif r is not None:
+            ok = r.get('number') != want
+        json.dump(dict(property='C17', label=label, input=dict(name=name.decode('utf-8', 'replace'), bytes=list(name)), expected_number=want, native=out[-800:], confirmed=ok,
+                       how='tools/replayer bytes brick-name <json>'), open(path, 'w'), indent=1)
+        return ok, path, 'native: ' + out.strip()[-200:]
     if case['what'].startswith('tags_'):
         if case['what'] == 'tags_dec':
             spec = dict(mode='decode', blob=[ev(x.t) for x in ex.blob_in])
